@@ -16,7 +16,7 @@ META = {
     "technique": "Lean 4 proof (invariant over all outcome sequences, case analysis by simp/omega) + replay of real read() outcome sequences + L-api oracle with short-write injection",
 }
 
-THEOREMS = ["C14.read_conservation", "C14.read_at_most_length", "C14.step_spec", "C14.read_len_pos", "C14.write_conservation", "C14.write_len_pos", "C14.barrier_runs_between", "C14.barrier_replay_sound", "C14.cleanup_after_all_handlers", "C14.cleanup_is_final", "C14.cleanup_replay_complete", "C14.cleanup_replay_quiet", "C14.cleanup_reachable", "C14.stream_source_consistent", "C14.stream_no_stranded_operation", "C14.stream_idle_source_suspended", "C14.F32_as_found", "C14.F33_as_found", "C14.F35_as_found"]
+THEOREMS = ["C14.read_conservation", "C14.read_at_most_length", "C14.step_spec", "C14.read_len_pos", "C14.write_conservation", "C14.write_len_pos", "C14.barrier_runs_between", "C14.barrier_replay_sound", "C14.cleanup_after_all_handlers", "C14.cleanup_is_final", "C14.cleanup_replay_complete", "C14.cleanup_replay_quiet", "C14.cleanup_reachable", "C14.no_hold_on_torn_entry", "C14.F37_as_found", "C14.F37_fixed", "C14.stream_source_consistent", "C14.stream_no_stranded_operation", "C14.stream_idle_source_suspended", "C14.F32_as_found", "C14.F33_as_found", "C14.F35_as_found"]
 
 
 def gen_lines(r, n):
@@ -201,6 +201,8 @@ def run(ctx):
     run_traces(ctx, "c16_hangup", [[ctx.seed * 10 + 7, 1000 if ctx.thorough else 150]], None, None, "L-api hang-up", "hangup", timeout=600)
     # the stream of a descriptor shared by two channels under stop: forced histories (the handler requested twice - F32; a failed operation with other channels' operations queued behind it - F33) and a storm with data in small pieces
     run_traces(ctx, "c14_rearm", [[ctx.seed * 10 + i, 6000 if ctx.thorough else 700] for i in range(8 if ctx.thorough else 4)], "streamsrc", r"explained-by-StreamP.srcReplay (\d+)", "L-trace stream source", "rearm", timeout=600)
+    # the convenience calls with nothing to transfer, freed memory poisoned (F37: a hold taken on a freed descriptor entry)
+    run_traces(ctx, "c14_conv0", [[ctx.seed * 10 + i, 4000 if ctx.thorough else 1500] for i in range(4 if ctx.thorough else 2)], None, None, "L-api convenience zero-length", "conv0", timeout=400)
     # known finding F31: a zero-length operation overtakes an earlier operation of its direction that is still waiting
     forced(ctx, "f31_zero_length_order", "F31", "io:order:zero-length-overtakes:forced-F31", "F31")
     # cleanup orchestration: the recorded history of the descriptor entry's close queue (suspensions / resumptions, handler calls,
